@@ -82,6 +82,7 @@ func (p *Program) WriteTo(cw *CodeWriter) {
 		}
 		stmt.WriteTo(cw)
 	}
+	cw.forgetOmittedSemi() // nothing follows
 	cw.WriteLeadingComments(p.EOF.LeadingComments)
 }
 
@@ -229,6 +230,7 @@ func (bs *BlockStatement) WriteTo(cw *CodeWriter) {
 	}
 	cw.DecreaseIndent()
 	cw.WriteNewline()
+	cw.forgetOmittedSemi() // a closing brace follows
 	cw.WriteLeadingComments(bs.RBrace.LeadingComments)
 	cw.WriteIndent()
 	cw.WriteRune('}')
